@@ -72,7 +72,7 @@ TABLE = [
     ("error_model.InsErrorModel.position_error_jacobian", [P("errmodel", ("o",)), P("pva", ("S",)), P("vec3", ("n", "l", "a"), "a")], ["arr"], False, []),
     ("error_model.InsErrorModel.ned_velocity_error_jacobian", [P("errmodel", ("o",)), P("pva", ("S",))], ["arr"], False, []),
     ("error_model.InsErrorModel.body_velocity_error_jacobian", [P("errmodel", ("o",)), P("pva", ("S",))], ["arr"], False, []),
-    ("error_model.propagate_errors", [P("traj", ("D",)), P("pvaerr", ("S", "n"), "S"), P("vec3", ("l", "a"), "a"), P("vec3", ("l", "a"), "a")],
+    ("error_model.propagate_errors", [P("traj", ("D",)), P("pvaerr", ("S", "n"), "S"), P("vec3", ("n", "l", "a"), "a"), P("vec3", ("n", "l", "a"), "a")],
      ["tab:trajectory_error", "tab:states"], False, []),
     # ------------------------------------------------------------------ measurements
     ("measurements.Position", [P("traj", ("D",)), P("sd", ("s",)), P("vec3", ("n", "l", "a"), "a")], ["meas"], False, []),
